@@ -17,7 +17,7 @@ Fold(m, at, evs, k, imgs) ==
            im == [p \in DOMAIN m2.kern |-> D!Images(m2, p)]
        IN  Fold(m2, IF at = 0 /\ m2.bad # "ok" THEN k ELSE at, evs, k + 1,
                 Append(imgs, [inflight |-> (IF m2.inflight # "" THEN m2.inflight
-                                           ELSE IF m2.ginfl # {} THEN CHOOSE g \in m2.ginfl : TRUE ELSE ""), done |-> m2.done, images |-> im]))
+                                           ELSE IF m2.ginfl # {} THEN CHOOSE g \in m2.ginfl : TRUE ELSE ""), done |-> m2.done, torn |-> m2.torn, images |-> im]))
 
 Judge(tr) == LET r == Fold(D!MonInit(PathSet(tr)), 0, tr.events, 1, <<>>)
              IN  [tid |-> tr.tid, bad |-> r[1].bad, at |-> r[2], prefixes |-> r[3]]
